@@ -513,10 +513,14 @@ def gen_mesh(parts, vec_views):
             and T.dotted(first[0].value.func.args[0]) == "mesh"):
         T.fail(ME, fn, "copy does not start from `type(mesh)()`")
 
-    def branch(stmts, suffix):
-        """every `copy_mesh.X<suffix> = f(mesh.X<suffix>)`: same X on both sides; returns mode of the vertices line"""
+    ELEMS = {"edges": 0, "faces": 1, "cells": 2}
+    CORN = {"face_corners": 0, "cell_corners": 2, "cell_faces": 4}
+
+    def branch(stmts, data_only):
+        """every `copy_mesh.X... = deepcopy(mesh.Y...)`: which container of the source fills which container of the copy.
+        Returns (mode of the vertices line, {elem index: source elem index}, {corner table index: source table index})."""
         vmode = None
-        seen = set()
+        elem, corn = {}, {}
 
         def visit(ss):
             nonlocal vmode
@@ -532,34 +536,63 @@ def gen_mesh(parts, vec_views):
                 tg = T.dotted(s.targets[0])
                 if tg is None or not tg.startswith("copy_mesh."):
                     T.fail(ME, s, "copy assigns something that is not a field of copy_mesh")
-                path = tg[len("copy_mesh."):]
-                srcpath = "mesh." + path
-                if not (isinstance(s.value, ast.Call) and len(s.value.args) == 1 and T.dotted(s.value.args[0]) == srcpath):
-                    T.fail(ME, s, "copy_mesh.%s is not built from mesh.%s" % (path, path))
+                if not (isinstance(s.value, ast.Call) and len(s.value.args) == 1):
+                    T.fail(ME, s, "copy_mesh field is not built by a one-argument call")
+                sp = T.dotted(s.value.args[0])
+                if sp is None or not sp.startswith("mesh."):
+                    T.fail(ME, s, "copy_mesh field is not built from a field of mesh")
+                tpath, spath = tg[len("copy_mesh."):].split("."), sp[len("mesh."):].split(".")
                 f = T.dotted(s.value.func)
-                mode = "Copy" if f in ("deepcopy", "copy.deepcopy") else None
-                if mode is None:
-                    if f in ("copy", "copy.copy", "list"):
-                        mode = "Alias"      # a shallow copy keeps the very same vectors
-                    else:
-                        T.fail(ME, s, "unrecognised copier " + str(f))
-                seen.add(path)
-                if path.split(".")[0] == "vertices":
+                if f in ("deepcopy", "copy.deepcopy"):
+                    mode = "Copy"
+                elif f in ("copy", "copy.copy", "list"):
+                    mode = "Alias"      # a shallow copy keeps the very same vectors
+                else:
+                    T.fail(ME, s, "unrecognised copier " + str(f))
+                tc, sc = tpath[0], spath[0]
+                if tc == "vertices":
+                    if spath != tpath or tpath[1:] != (["_data"] if data_only else []):
+                        T.fail(ME, s, "the vertices of the copy are not built from the vertices of the source")
                     vmode = mode
-                elif mode != "Copy":
-                    T.fail(ME, s, "copy_mesh.%s is only shallow-copied" % path)
+                    continue
+                if mode != "Copy":
+                    T.fail(ME, s, "copy_mesh.%s is only shallow-copied" % ".".join(tpath))
+                if tc in ELEMS:
+                    if sc not in ELEMS or tpath[1:] != spath[1:] or tpath[1:] != (["_data"] if data_only else []):
+                        T.fail(ME, s, "element container %s filled from %s" % (".".join(tpath), ".".join(spath)))
+                    elem[ELEMS[tc]] = ELEMS[sc]
+                elif tc in CORN:
+                    if sc not in CORN:
+                        T.fail(ME, s, "corner container %s filled from %s" % (".".join(tpath), ".".join(spath)))
+                    if data_only:
+                        sub = {"_elem": 0, "_adj": 1}
+                        if len(tpath) != 2 or len(spath) != 2 or tpath[1] not in sub or spath[1] not in sub:
+                            T.fail(ME, s, "corner table %s filled from %s" % (".".join(tpath), ".".join(spath)))
+                        corn[CORN[tc] + sub[tpath[1]]] = CORN[sc] + sub[spath[1]]
+                    else:
+                        if len(tpath) != 1 or len(spath) != 1:
+                            T.fail(ME, s, "corner container %s filled from %s" % (".".join(tpath), ".".join(spath)))
+                        corn[CORN[tc]] = CORN[sc]
+                        corn[CORN[tc] + 1] = CORN[sc] + 1
+                else:
+                    T.fail(ME, s, "unknown container " + tc)
         visit(stmts)
         if vmode is None:
             T.fail(ME, fn, "copy does not copy the vertices in one branch")
-        return vmode, seen
-    m1, s1 = branch(iff[0].body, "")
-    m2, s2 = branch(iff[0].orelse, "._data")
-    need1 = {"vertices", "edges", "faces", "face_corners", "cells", "cell_corners", "cell_faces"}
-    need2 = {"vertices._data", "edges._data", "faces._data", "cells._data"}
-    if not need1 <= s1 or not need2 <= s2:
-        T.fail(ME, fn, "copy leaves out a container: %s / %s" % (sorted(need1 - s1), sorted(need2 - s2)))
+        if set(elem) != {0, 1, 2} or set(corn) != {0, 1, 2, 3, 4, 5}:
+            T.fail(ME, fn, "copy leaves out a container (elements %s, corner tables %s)" % (sorted(elem), sorted(corn)))
+        return vmode, elem, corn
+    m1, e1, c1 = branch(iff[0].body, False)
+    m2, e2, c2 = branch(iff[0].orelse, True)
     out.append("Definition copy_mode_with_attributes : cmode := %s." % m1)
     out.append("Definition copy_mode_data_only : cmode := %s." % m2)
+
+    def table(d, n):
+        return "match k with " + " | ".join("%d%%nat => %d%%nat" % (k, d[k]) for k in range(n - 1)) + " | _ => %d%%nat end" % d[n - 1]
+    out.append("(* which container of the source fills container k of the copy: 0 edges, 1 faces, 2 cells *)")
+    out.append("Definition copy_elem_src (attr : bool) (k : nat) : nat := if attr then %s else %s." % (table(e1, 3), table(e2, 3)))
+    out.append("(* corner tables: 0/1 face_corners elem/adj, 2/3 cell_corners elem/adj, 4/5 cell_faces elem/adj *)")
+    out.append("Definition copy_corn_src (attr : bool) (k : nat) : nat := if attr then %s else %s." % (table(c1, 6), table(c2, 6)))
     # connectivity
     cc = [s for s in b if isinstance(s, ast.If) and isinstance(s.test, ast.BoolOp)
           and any(T.dotted(v) == "copy_connectivity" for v in s.test.values)]
